@@ -125,9 +125,18 @@ type Net struct {
 	OnSend func(m *Msg)
 	// GetVertexCalls counts the atomic parent-fetch RPCs.
 	GetVertexCalls int
+	// Fetches records every parent-fetch request (GetVertex) the nodes sent, with sender and addressee: what a
+	// malicious peer gets to see of a node's signatures.
+	Fetches []Fetch
 	// Sync makes the gossip RPCs synchronous, as gRPC is: the sender's call returns only when the model delivers the
 	// message, with the error the receiving handler answered (otherwise calls return nil at once: fire-and-forget).
 	Sync bool
+}
+
+// Fetch is one recorded GetVertex request.
+type Fetch struct {
+	From, To string
+	Req      *protobufcompiled.SignedHash
 }
 
 // NewNet wires the given nodes according to the undirected edge list (pairs of node names).
@@ -213,6 +222,7 @@ func (s *stubClient) call(m *Msg) (*emptypb.Empty, error) {
 
 func (s *stubClient) GetVertex(ctx context.Context, in *protobufcompiled.SignedHash, _ ...grpc.CallOption) (*protobufcompiled.Vertex, error) {
 	s.net.GetVertexCalls++
+	s.net.Fetches = append(s.net.Fetches, Fetch{From: s.from, To: s.to, Req: proto.Clone(in).(*protobufcompiled.SignedHash)})
 	return s.net.Nodes[s.to].Gossip.Server().GetVertex(ctx, proto.Clone(in).(*protobufcompiled.SignedHash))
 }
 
